@@ -36,7 +36,8 @@ MNext == (Mode = "closure" \/ Len(hist) < Depth) /\ Act
 MSpec == MInit /\ [][MNext]_avars
 
 View == objs      \* closure mode: history variables hidden
-ListBound == \A h \in Handles : Len(objs[h].params) <= MaxList
+ListBound == \A h \in Handles : /\ Len(objs[h].params) <= MaxList
+                                  /\ \A i \in 1..Len(objs[h].params) : Len(objs[h].params[i][2]) <= 6    \* iterappend grows values without bound
 
 (* emission: the history so far, with the expected state of every handle after its last step *)
 EmitState == Mode # "closure" => PrintT(ToJson([t |-> "h", nobj |-> NH, steps |-> WithObs(hist, objs)]))
